@@ -77,6 +77,9 @@ func c16Int(t *rapid.T, label string) (*big.Int, string) {
 			new(big.Int).Sub(pow2(255), one), new(big.Int).Rsh(ref.L, 1), new(big.Int).Add(new(big.Int).Rsh(ref.L, 1), one),
 			new(big.Int).Sub(pow2(252), one), pow2(252), pow2(254), new(big.Int).Sub(ref.L, big.NewInt(2)),
 			new(big.Int).Mul(big.NewInt(2), ref.L), new(big.Int).Mul(big.NewInt(7), ref.L)}
+		// Extremal lattices: k^2 = -1 (two orthogonal shortest vectors of equal norm, inner product 0) and
+		// k^2 + k + 1 = 0 (hexagonal lattice: every comparison in the reduction ties).
+		fixed = append(fixed, c16SpecialRoots()...)
 		return new(big.Int).Set(fixed[rapid.IntRange(0, len(fixed)-1).Draw(t, label+"_fx")]), "fixed"
 	case 5: // floor(L*a/q) + e for q of any size below 2^127: one very short vector (q, ~e*q)
 		qb := uint(rapid.IntRange(1, 127).Draw(t, label+"_qb"))
@@ -261,4 +264,24 @@ func C16EngineeredAB(t *rapid.T, label string) (a, b []byte, cls string) {
 	}
 	bv := ref.SMul(target, ref.SInv(d1))
 	return ref.ToLE(av, 32), ref.ToLE(bv, 32), cls
+}
+
+// c16SpecialRoots returns the square roots of -1 and the primitive cube roots
+// of unity modulo L (L = 1 mod 4 and 1 mod 3), with small offsets.
+func c16SpecialRoots() []*big.Int {
+	one := big.NewInt(1)
+	lm1 := new(big.Int).Sub(ref.L, one)
+	i := new(big.Int).Exp(big.NewInt(2), new(big.Int).Rsh(lm1, 2), ref.L) // 2 is a non-residue since L = 5 mod 8
+	var w *big.Int
+	for g := int64(2); ; g++ {
+		w = new(big.Int).Exp(big.NewInt(g), new(big.Int).Div(lm1, big.NewInt(3)), ref.L)
+		if w.Cmp(one) != 0 {
+			break
+		}
+	}
+	out := []*big.Int{i, ref.SNeg(i), w, ref.SMul(w, w), ref.SNeg(w), ref.SNeg(ref.SMul(w, w))}
+	for _, v := range []*big.Int{i, w} {
+		out = append(out, ref.SAdd(v, one), ref.SSub(v, one))
+	}
+	return out
 }
